@@ -288,8 +288,15 @@ class SymInt:
     __iter__ = _escape("iter()")
     __truediv__ = _escape("/")
     __rtruediv__ = _escape("/")
-    __round__ = _escape("round()")
-    __trunc__ = _escape("trunc()")
+
+    def __round__(self, nd=None):
+        if nd is None or (type(nd) is int and nd >= 0):
+            return self  # round(int) and round(int, n >= 0) are the identity
+        raise ProxyEscape("round(SymInt, negative digits)")
+
+    def __trunc__(self):
+        return self
+
 
 
 class SymReal:
@@ -363,16 +370,52 @@ class SymFloat:
     def __repr__(self):
         return f"SymFloat({self.e})"
 
+    # Arithmetic is over the reals (the rounding of double arithmetic is not modelled): exact for
+    # sums/differences of dyadics of one scale inside the 53-bit range, an approximation otherwise.
+    # Every counterexample is replayed on concrete doubles before it is reported, so the
+    # approximation can only turn a would-be alarm into "inconclusive", never into a false one.
+    def _ar(self, o, f):
+        r = _zr(o)
+        if r is None:
+            raise ProxyEscape(f"SymFloat arithmetic with {type(o).__name__}")
+        return SymFloat(z3.simplify(f(self.e, r)))
+
+    def __add__(self, o):
+        return self._ar(o, lambda a, b: a + b)
+
+    __radd__ = __add__
+
+    def __sub__(self, o):
+        return self._ar(o, lambda a, b: a - b)
+
+    def __rsub__(self, o):
+        return self._ar(o, lambda a, b: b - a)
+
+    def __abs__(self):
+        return SymFloat(z3.If(self.e >= 0, self.e, -self.e))
+
+    def __float__(self):
+        # float(x) of a float is x; C callers that insist on a real double get an escape
+        raise ProxyEscape("float(SymFloat)")
+
+    def __round__(self, nd=None):
+        """round(x, nd): the nearest multiple of 10**-nd (either neighbour on exact ties)."""
+        if nd is None or type(nd) is not int or not 0 <= nd <= 12:
+            raise ProxyEscape("round(SymFloat) without a small digit count")
+        n = CUR.fresh_int("_round")
+        scale = z3.RealVal(10 ** nd)
+        d = self.e * scale - z3.ToReal(n.e)
+        CUR.assume(SymBool(z3.And(2 * d <= 1, 2 * d >= -1)))
+        return SymFloat(z3.ToReal(n.e) / scale)
+
     __index__ = _escape("__index__")
     __int__ = _escape("int()")
-    __float__ = _escape("float()")
     __str__ = _escape("str()")
     __format__ = _escape("format()")
-    __round__ = _escape("round()")
     __trunc__ = _escape("trunc()")
     __floordiv__ = _escape("//")
     __mod__ = _escape("%")
-    __add__ = __radd__ = __sub__ = __rsub__ = __mul__ = __rmul__ = __truediv__ = __rtruediv__ = _escape("arithmetic")
+    __mul__ = __rmul__ = __truediv__ = __rtruediv__ = _escape("arithmetic")
 
 
 # --------------------------------------------------------------------------- engine
@@ -511,6 +554,16 @@ class Engine:
         k = self.sym_int(name)
         return SymFloat(z3.ToReal(k.e) / 4)
 
+    def sym_dyadic(self, name, bits=40):
+        """A float-typed value k / 2**bits, |k| < 2**53 (every such value is exactly a double)."""
+        k = self.sym_int(name, -(2 ** 53) + 1, 2 ** 53 - 1)
+        return SymFloat(z3.ToReal(k.e) / z3.RealVal(2 ** bits))
+
+    def fresh_int(self, prefix):
+        """An auxiliary integer that is not a harness input (deterministic name per path)."""
+        self._naux = getattr(self, "_naux", 0) + 1
+        return SymInt(z3.Int(f"{prefix}!{self._naux}"))
+
     def sym_bool(self, name):
         v = z3.Bool(name)
         if name in self.inputs:
@@ -615,6 +668,7 @@ class Engine:
                 self.inputs = {}
                 self.notes = {}
                 self._nvars = 0
+                self._naux = 0
                 self.paths += 1
                 try:
                     fn()
@@ -698,6 +752,9 @@ class ConcreteEngine:
     def sym_quarter(self, name):
         return int(self._get(name, 0)) / 4
 
+    def sym_dyadic(self, name, bits=40):
+        return int(self._get(name, 0)) / 2 ** bits
+
     def sym_bool(self, name):
         return bool(self._get(name, False))
 
@@ -752,6 +809,10 @@ def sym_int(name, lo=None, hi=None):
 
 def sym_bool(name):
     return CUR.sym_bool(name)
+
+
+def sym_dyadic(name, bits=40):
+    return CUR.sym_dyadic(name, bits)
 
 
 def sym_quarter(name):
